@@ -89,6 +89,15 @@ type doc struct {
 	data  []byte
 	recs  []*rec
 	class string
+	// the trailers of the file, oldest first: where each is complete (the byte after the
+	// dictionary's ">>", or after the endobj of an xref stream) and its /XX_Rev marker
+	// (0 for the Writer's own trailer); nil = the trailer oracle is not run
+	trailers []trailerInfo
+}
+
+type trailerInfo struct {
+	completeAt int
+	rev        int
 }
 
 var words = []string{"hello", "(world)", "obj", "endobj", "stream", "xref", "trailer", "1 0 obj", "startxref", "%%EOF", "a\\b", "R", "<<", ">>"}
@@ -365,6 +374,7 @@ func observe(data []byte, withXRef bool) (obs string, pcs string, fi *pdf.FileIn
 		}
 	}
 	pcs = fmt.Sprintf("%d %s", len(pp), strings.Join(pp, " "))
+	pcs += " X 0 T 0" // replaced below when the scan succeeds
 
 	fi, scanErr = safeScan(data)
 	if scanErr != nil {
@@ -404,6 +414,49 @@ func observe(data []byte, withXRef bool) (obs string, pcs string, fi *pdf.FileIn
 			xs = append(xs, fmt.Sprintf("%d=%d.%d", n, x[uint32(n)][0], x[uint32(n)][1]))
 		}
 		obs += " xref[" + strings.Join(xs, " ") + "]"
+	}
+	// getTrailer: what the implementation chooses, and what it sees in each section
+	tcls := func(err error) string {
+		switch {
+		case err == nil:
+			return "ok"
+		case pdf.VerifIsSourceFailure(err):
+			return "source"
+		default:
+			return "bad"
+		}
+	}
+	var xs, ts []string
+	for _, sec := range fi.Sections {
+		for _, o := range sec.Objects {
+			if o.Type == "Stream" && o.Subtype == "XRef" {
+				x, err := fi.Read(o)
+				root, dig := "0", "-"
+				if stm, ok := x.(*pdf.Stream); err == nil && ok {
+					if stm.Dict["Root"] != nil {
+						root = "1"
+					}
+					dig = valueDigest(stm.Dict)
+				}
+				xs = append(xs, fmt.Sprintf("%d:%s:%s:%s", o.ObjStart, tcls(err), root, dig))
+			}
+		}
+		if sec.TrailerPos != 0 {
+			d, err := fi.VerifReadTrailer(sec)
+			dig := "-"
+			if err == nil {
+				dig = valueDigest(d)
+			}
+			ts = append(ts, fmt.Sprintf("%d:%s:%s", sec.TrailerPos, tcls(err), dig))
+		}
+	}
+	pcs = strings.TrimSuffix(pcs, " X 0 T 0") + fmt.Sprintf(" X %d %s T %d %s", len(xs), strings.Join(xs, " "), len(ts), strings.Join(ts, " "))
+	if td, terr := fi.VerifGetTrailer(); terr == nil {
+		obs += " trailer[" + valueDigest(td) + "]"
+	} else if pdf.VerifIsSourceFailure(terr) && terr.Error() != "no trailer found" {
+		obs += " trailer[source]"
+	} else {
+		obs += " trailer[none]"
 	}
 	return obs, pcs, fi, nil, spurious
 }
@@ -497,6 +550,7 @@ func (t *runner) allCuts(d *doc) {
 		e.Line("cases.txt", "%s C %d x %s", cid, cut, pcs)
 		e.Line("impl.obs", "%s %s", cid, obs)
 		t.oracle(d, data, cut, fi, err, "truncation", cid, spur)
+		t.trailerOracle(d, data, cut, fi, cid)
 		complete := 0
 		for _, rc := range d.recs {
 			if rc.end <= cut {
@@ -512,6 +566,94 @@ func (t *runner) allCuts(d *doc) {
 		e.Count(complete > 0, cid+string(data[max(0, cut-40):]), cls)
 	}
 	e.Sample(2, map[string]any{"id": id, "class": d.class, "bytes": len(d.data), "objects": len(d.recs)})
+}
+
+// trailerOracle: getTrailer chooses the newest trailer that is completely inside the bytes
+func (t *runner) trailerOracle(d *doc, data []byte, avail int, fi *pdf.FileInfo, id string) {
+	if d.trailers == nil || fi == nil {
+		return
+	}
+	want := -1
+	for _, ti := range d.trailers {
+		if ti.completeAt <= avail {
+			want = ti.rev
+		}
+	}
+	got := -1
+	if td, err := fi.VerifGetTrailer(); err == nil {
+		got = 0
+		if v, ok := td["XX_Rev"].(pdf.Integer); ok {
+			got = int(v)
+		}
+	}
+	if got != want {
+		failCapped(t.e, "trailer-is-not-the-newest-complete-one",
+			fmt.Sprintf("getTrailer chose revision %d, the newest complete trailer is that of revision %d (-1: none)", got, want),
+			map[string]any{"id": id, "available_bytes": avail, "file_hex": hex.EncodeToString(data), "doc": d.class})
+	}
+}
+
+var rootRe = regexp.MustCompile(`/Root ([0-9]+) 0 R`)
+
+// updateDoc: a Writer document followed by hand-written incremental updates: a classic
+// section, a section whose cross-reference data is an (unfiltered) xref stream, and another
+// classic section; every trailer carries /XX_Rev
+func (g *generator) updateDoc() *doc {
+	r := g.e.Rand
+	n := 1 + r.IntN(3)
+	vals := make([]pdf.Object, n)
+	for i := range vals {
+		vals[i] = g.object(0, 0)
+	}
+	d := g.write(pdf.V1_4, r.IntN(2) == 0, vals, make([][]byte, n))
+	d.class = "updates"
+	m := rootRe.FindSubmatch(d.data)
+	if m == nil {
+		panic("no /Root in the trailer")
+	}
+	root := string(m[1])
+	var buf bytes.Buffer
+	buf.Write(d.data)
+	it := bytes.LastIndex(d.data, []byte("\ntrailer\n"))
+	d.trailers = append(d.trailers, trailerInfo{completeAt: it + bytes.Index(d.data[it:], []byte(">>")) + 2, rev: 0})
+	prev := bytes.LastIndex(d.data, []byte("\nxref\n")) + 1
+	num := 40
+	addObj := func(val string) (int, int) {
+		num++
+		start := buf.Len()
+		fmt.Fprintf(&buf, "%d 0 obj\n%s\nendobj\n", num, val)
+		d.recs = append(d.recs, &rec{ref: pdf.NewReference(uint32(num), 0), start: start, end: buf.Len() - 1, val: ""})
+		return num, start
+	}
+	kinds := []string{"table", "stream", "table"}
+	if r.IntN(2) == 0 {
+		kinds = []string{"stream", "table", "stream"}
+	}
+	for k, kind := range kinds {
+		rev := k + 1
+		onum, ostart := addObj(fmt.Sprintf("(update %d)", rev))
+		d.recs[len(d.recs)-1].val = digest(pdf.AsString(pdf.String(fmt.Sprintf("update %d", rev))))
+		xpos := buf.Len()
+		switch kind {
+		case "table":
+			fmt.Fprintf(&buf, "xref\n0 1\n0000000000 65535 f \n%d 1\n%010d 00000 n \ntrailer\n<< /Size 60 /Root %s 0 R /Prev %d /XX_Rev %d >>", onum, ostart, root, prev, rev)
+			d.trailers = append(d.trailers, trailerInfo{completeAt: buf.Len(), rev: rev})
+			buf.WriteString("\n")
+		case "stream":
+			num++
+			xnum := num
+			body := []byte{1, byte(ostart >> 8), byte(ostart), 0, 1, byte(xpos >> 8), byte(xpos), 0}
+			fmt.Fprintf(&buf, "%d 0 obj\n<< /Type /XRef /Size 60 /W [1 2 1] /Index [%d 1 %d 1] /Root %s 0 R /Prev %d /XX_Rev %d /Length %d >>\nstream\n", xnum, onum, xnum, root, prev, rev, len(body))
+			buf.Write(body)
+			buf.WriteString("\nendstream\nendobj")
+			d.trailers = append(d.trailers, trailerInfo{completeAt: buf.Len(), rev: rev})
+			buf.WriteString("\n")
+		}
+		fmt.Fprintf(&buf, "startxref\n%d\n%%%%EOF\n", xpos)
+		prev = xpos
+	}
+	d.data = buf.Bytes()
+	return d
 }
 
 func (t *runner) corruptions(d *doc) {
@@ -573,7 +715,11 @@ func (t *runner) corruptions(d *doc) {
 			// the located objects must be those of the intact file
 			obs0, _, _, _, _ := observe(data, false)
 			if err == nil {
-				if got := strings.SplitN(obs, " xref[", 2)[0]; got != obs0 {
+				objsOf := func(o string) string {
+					o = strings.SplitN(o, " xref[", 2)[0]
+					return strings.SplitN(o, " trailer[", 2)[0]
+				}
+				if got, obs0 := objsOf(obs), objsOf(obs0); got != obs0 {
 					failCapped(e, "xref-damage-changes-located-objects", "overwriting "+rg.name+" changes the located objects or their values",
 						map[string]any{"id": cid, "what": what, "intact": obs0, "damaged": got, "file_hex": hex.EncodeToString(mut)})
 				}
@@ -650,6 +796,11 @@ func main() {
 	// the same family under the enumeration of all cuts
 	for _, n := range []int{1024 + 977, 1024 + 1500}[:e.Pick(1, 2)] {
 		t.allCuts(g.sweepDoc(n))
+	}
+
+	// incremental updates (hand-written after a Writer document): which trailer MakeReader uses
+	for i := 0; i < e.Pick(2, 40); i++ {
+		t.allCuts(g.updateDoc())
 	}
 
 	nDocs := e.Pick(10, 400)
